@@ -294,7 +294,7 @@ class SqlImpl(TableImpl):
                 value: sqa.FunctionElement = impl(*args)
 
                 if expr.op == ops.cum_sum and cls.dialect_order_append_rand():
-                    order_by += [cls.get_impl(ops.rand, [])()]
+                    order_by = (order_by or []) + [cls.get_impl(ops.rand, [])()]  # `arrange=[]` leaves it None
 
                 if partition_by is not None or order_by is not None and expr.ftype() == Ftype.WINDOW:
                     value = sqa.over(
